@@ -11,7 +11,7 @@ def _c15_classes(i, o):
 PROPS = {
     'C15': dict(
         id='C15', crosscheck_n=1, cluster='Consensus', crate='h-consensus', tag=15,
-        n={'quick': 96, 'thorough': 2400}, shard=6, profiles=['release'],
+        n={'quick': 96, 'thorough': 480}, shard=6, profiles=['release'],
         theorems=['accept_iff_rules', 'consensus_iff_key', 'header_binding', 'txns_root_binding', 'block_binding',
                   'pair_checker_sound'],
         classify=_c15_classes,
